@@ -186,4 +186,301 @@ theorem lenient_sem (ls : List Str) :
     have := sem_false_vs ls r hs
     simp [comb, this, pushLines, finishPara]
 
+/-! ### 2. the tokens of a line of each kind -/
+
+theorem validKey_all (k : Str) (hk : ValidKey k) : ∀ x ∈ k, isKeyChar x = true := by
+  obtain ⟨c, cs, rfl, hc, _, hcs⟩ := hk
+  intro x hx
+  simp only [List.mem_cons] at hx
+  rcases hx with rfl | hx
+  · exact initialKeyChar_keyChar _ hc
+  · exact hcs x hx
+
+theorem shape_comment (t : Str) (hn : NoNl ('#' :: t)) : lineT ('#' :: t) = [(.COMMENT, '#' :: t)] := by
+  have := lex_commentLine t [] (fun x hx => hn x (by simp [hx])) lineEnd_nil
+  simpa [lineT, lexAux_nil] using this
+
+theorem shape_ws (l : Str) (h : WsOnlyLine l) : lineT l = [(.INDENT, l)] := by
+  obtain ⟨hne, hall⟩ := h
+  cases l with
+  | nil => exact absurd rfl hne
+  | cons c cs =>
+    have := step_indent c cs [] initState rfl (hall c (by simp)) (fun x hx => hall x (by simp [hx]))
+      (headFails_nil _)
+    rw [List.append_nil] at this
+    rw [lineT, lexAux_cons, this]
+    simp [lexAux_nil]
+
+theorem shape_hash (ws cs : Str) (hne : ws ≠ []) (hall : AllIndent ws) (hn : NoNl cs) :
+    lineT (ws ++ '#' :: cs) = [(.INDENT, ws), (.COMMENT, '#' :: cs)] := by
+  cases ws with
+  | nil => exact absurd rfl hne
+  | cons w ws' =>
+    have h1 := step_indent w ws' ('#' :: cs) initState rfl (hall w (by simp))
+      (fun x hx => hall x (by simp [hx])) (headFails_cons _ _ _ (by decide))
+    have h2 := step_comment cs [] { initState with indent := (w :: ws').length } rfl hn lineEnd_nil
+    rw [List.append_nil] at h2
+    rw [lineT, List.cons_append, lexAux_cons, h1]
+    simp only
+    rw [lexAux_cons, h2]
+    simp [lexAux_nil]
+
+theorem shape_cont (ws : Str) (c : Char) (cs : Str) (hne : ws ≠ []) (hall : AllIndent ws)
+    (hc : isIndent c = false) (hh : c ≠ '#') (hn : NoNl (c :: cs)) :
+    lineT (ws ++ c :: cs) = [(.INDENT, ws), (.VALUE, c :: cs)] := by
+  have := lex_contLine ws (c :: cs) [] hne hall ⟨hn, c, cs, rfl, hc, hh⟩ lineEnd_nil
+  rw [List.append_nil] at this
+  rw [lineT, this]
+  simp [lexAux_nil]
+
+theorem shape_field (k ws r : Str) (hk : ValidKey k) (hall : AllIndent ws) (hr : NoNl r) :
+    lineT (k ++ (ws ++ ':' :: r)) = (.KEY, k) :: (optTok .WHITESPACE ws ++ (.COLON, [':']) :: lineToks r) := by
+  have hinl : lexAux stLine r = lineToks r := lexInline_line r hr
+  obtain ⟨c, cs, rfl, hc, hh, hcs⟩ := hk
+  have hf : HeadFails isKeyChar (ws ++ ':' :: r) := by
+    cases ws with
+    | nil => exact headFails_keyChar_colon r
+    | cons w ws' => exact headFails_cons _ _ _ (indent_not_keyChar w (hall w (by simp)))
+  rw [lineT, List.cons_append, lexAux_cons, step_key c cs _ initState rfl rfl hc hh hcs hf]
+  simp only [initState, List.cons.injEq, true_and]
+  cases ws with
+  | nil =>
+    rw [List.nil_append, lexAux_cons, step_colon _ _ rfl rfl]
+    simp only [optTok, ↓reduceIte, List.nil_append, List.cons.injEq, true_and]
+    exact hinl
+  | cons w ws' =>
+    rw [List.cons_append, lexAux_cons,
+      step_ws w ws' (':' :: r) _ rfl (hall w (by simp)) (fun x hx => hall x (by simp [hx]))
+        (headFails_cons _ _ _ (by decide))]
+    simp only
+    rw [lexAux_cons, step_colon _ _ rfl rfl]
+    simp only [optTok, List.cons_ne_nil, ↓reduceIte, List.cons_append, List.nil_append, List.cons.injEq,
+      true_and]
+    exact hinl
+
+/-- the kind and the tokens of a line, from its class -/
+theorem lkind_blank (l : Str) (hn : NoNl l) (h : lkind l = .blank) : lineT l = [] := by
+  have hh := lineClass_holds l hn
+  unfold lkind at h
+  cases hc : lineClass l <;> simp only [hc, LineClass.Holds] at hh h <;> (try split at h) <;>
+    (try (simp at h; done))
+  subst hh; simp [lineT, lexAux_nil]
+
+theorem lkind_comment (l : Str) (hn : NoNl l) (h : lkind l = .comment) : ∃ s, lineT l = [(.COMMENT, s)] := by
+  have hh := lineClass_holds l hn
+  unfold lkind at h
+  cases hc : lineClass l <;> simp only [hc, LineClass.Holds] at hh h <;> (try split at h) <;>
+    (try (simp at h; done))
+  obtain ⟨t, rfl⟩ := hh
+  exact ⟨_, shape_comment t hn⟩
+
+theorem lkind_skip (l : Str) (hn : NoNl l) (h : lkind l = .skip) :
+    ∃ i, lineT l = [(.INDENT, i)] ∨ ∃ s, lineT l = [(.INDENT, i), (.COMMENT, s)] := by
+  have hh := lineClass_holds l hn
+  unfold lkind at h
+  cases hc : lineClass l <;> simp only [hc, LineClass.Holds] at hh h <;> (try split at h) <;>
+    (try (simp at h; done))
+  · exact ⟨l, Or.inl (shape_ws l hh)⟩
+  · rename_i hhead
+    obtain ⟨ws, c, cs, rfl, hne, hall, hci⟩ := hh
+    rw [dropWhile_app isIndent ws (c :: cs) hall (headFails_cons _ _ _ hci)] at hhead
+    simp only [List.head?_cons, Option.some.injEq] at hhead
+    subst hhead
+    exact ⟨ws, Or.inr ⟨_, shape_hash ws cs hne hall (fun x hx => hn x (by simp [hx]))⟩⟩
+
+theorem lkind_cont (l v : Str) (hn : NoNl l) (h : lkind l = .cont v) :
+    v ≠ [] ∧ ∃ i, lineT l = [(.INDENT, i), (.VALUE, v)] := by
+  have hh := lineClass_holds l hn
+  unfold lkind at h
+  cases hc : lineClass l <;> simp only [hc, LineClass.Holds] at hh h <;> (try split at h) <;>
+    (try (simp at h; done))
+  rename_i hhead
+  obtain ⟨ws, c, cs, rfl, hne, hall, hci⟩ := hh
+  rw [dropWhile_app isIndent ws (c :: cs) hall (headFails_cons _ _ _ hci)] at hhead h
+  simp only [List.head?_cons, Option.some.injEq, LKind.cont.injEq] at hhead h
+  subst h
+  exact ⟨by simp, ws, shape_cont ws c cs hne hall hci hhead (fun x hx => hn x (by simp [hx]))⟩
+
+theorem lkind_field (l k v : Str) (hn : NoNl l) (h : lkind l = .field k v) :
+    ∃ w1 w2, lineT l = (.KEY, k) :: (optTok .WHITESPACE w1 ++ (.COLON, [':']) :: (optTok .WHITESPACE w2
+      ++ optTok .VALUE v)) := by
+  have hh := lineClass_holds l hn
+  unfold lkind at h
+  cases hc : lineClass l <;> simp only [hc, LineClass.Holds] at hh h <;> (try split at h) <;>
+    (try (simp at h; done))
+  · obtain ⟨k0, r, rfl, hk⟩ := hh
+    have hr : NoNl r := fun x hx => hn x (by simp [hx])
+    have e1 := takeWhile_app isKeyChar k0 (':' :: r) (validKey_all k0 hk) (headFails_keyChar_colon r)
+    have e2 := dropWhile_app isKeyChar k0 (':' :: r) (validKey_all k0 hk) (headFails_keyChar_colon r)
+    rw [e1, e2] at h
+    simp only [List.drop_succ_cons, List.drop_zero, LKind.field.injEq] at h
+    obtain ⟨rfl, rfl⟩ := h
+    exact ⟨[], r.takeWhile isIndent, by
+      have := shape_field k0 [] r hk (by intro x hx; simp at hx) hr
+      simpa [lineToks] using this⟩
+  · obtain ⟨k0, ws, r, rfl, hk, hne, hall⟩ := hh
+    have hr : NoNl r := fun x hx => hn x (by simp [hx])
+    have hf : HeadFails isKeyChar (ws ++ ':' :: r) := by
+      cases ws with
+      | nil => exact headFails_keyChar_colon r
+      | cons w ws' => exact headFails_cons _ _ _ (indent_not_keyChar w (hall w (by simp)))
+    have e1 := takeWhile_app isKeyChar k0 _ (validKey_all k0 hk) hf
+    have e2 := dropWhile_app isKeyChar k0 _ (validKey_all k0 hk) hf
+    have e3 := dropWhile_app isIndent ws (':' :: r) hall (headFails_cons _ _ _ (by decide))
+    rw [e1, e2, e3] at h
+    simp only [List.drop_succ_cons, List.drop_zero, LKind.field.injEq] at h
+    obtain ⟨rfl, rfl⟩ := h
+    exact ⟨ws, r.takeWhile isIndent, by
+      have := shape_field k0 ws r hk hall hr
+      simpa [lineToks] using this⟩
+
+theorem lkind_bad (l : Str) (hn : NoNl l) (h : lkind l = .bad) : BadLine l := by
+  have hh := lineClass_holds l hn
+  unfold lkind at h
+  cases hc : lineClass l <;> simp only [hc, LineClass.Holds] at hh h <;> (try split at h) <;>
+    (try (simp at h; done))
+  exact hh
+
+/-! ### 3. the parser's three loops as suffix semantics on token lists -/
+
+def mk {α} (errs : List String) (a : α) : Option α := if errs = [] then some a else none
+
+theorem mk_map {α β} (errs : List String) (a : α) (f : α → β) : (mk errs a).map f = mk errs (f a) := by
+  unfold mk; split <;> rfl
+
+theorem mk_err {α} (errs : List String) (a : α) (h : errs ≠ []) : mk errs a = none := by simp [mk, h]
+
+/-- between paragraphs (`rootLoop`): the paragraphs still to come -/
+def semR (ts : List Tok) : Option (List (List (Str × Str))) :=
+  mk (rootLoop ts).errs (dItems (rootLoop ts).nodes)
+
+/-- inside a paragraph (`paraLoop`, then `rootLoop`): further fields of the paragraph, further paragraphs -/
+def semP (ts : List Tok) : Option (List (Str × Str) × List (List (Str × Str))) :=
+  mk ((paraLoop ts).errs ++ (rootLoop (paraLoop ts).rest).errs)
+    (pItems (paraLoop ts).nodes, dItems (rootLoop (paraLoop ts).rest).nodes)
+
+/-- a parser fragment inside a value, followed by `paraLoop` and `rootLoop` -/
+def semX (e : PR) : Option Suf :=
+  mk (e.errs ++ ((paraLoop e.rest).errs ++ (rootLoop (paraLoop e.rest).rest).errs))
+    (valTexts e.nodes, pItems (paraLoop e.rest).nodes, dItems (rootLoop (paraLoop e.rest).rest).nodes)
+
+/-- inside a value, on a line (`entryLines`) -/
+def semE (ts : List Tok) : Option Suf := semX (entryLines ts)
+/-- inside a value, after the NEWLINE (`afterNl`: an INDENT token continues the value) -/
+def semA (ts : List Tok) : Option Suf := semX (afterNl ts)
+
+theorem semR_nil : semR [] = some [] := by simp [semR, rootLoop_nil, mk]
+
+theorem untilNl_nl (r : List Tok) : untilNl (NL :: r) = ([tk NL], r) := by simp [untilNl]
+
+theorem semR_nl (r : List Tok) : semR (NL :: r) = semR r := by
+  unfold semR
+  rw [rootLoop_blank NL r (by decide), untilNl_nl]
+  simp only [dItems_empty]
+
+theorem semR_comment_nl (s : Str) (r : List Tok) : semR ((.COMMENT, s) :: NL :: r) = semR r := by
+  unfold semR
+  rw [rootLoop_blank _ _ rfl]
+  have : untilNl ((Kind.COMMENT, s) :: NL :: r) = ([tk (.COMMENT, s), tk NL], r) := by simp [untilNl]
+  rw [this]
+  simp only [dItems_empty]
+
+theorem semR_comment_eof (s : Str) : semR [(.COMMENT, s)] = some [] := by
+  unfold semR
+  rw [rootLoop_blank _ _ rfl]
+  have : untilNl [(Kind.COMMENT, s)] = ([tk (.COMMENT, s)], []) := by simp [untilNl]
+  rw [this]
+  simp [dItems_empty, rootLoop_nil, mk]
+
+theorem semR_start (t : Tok) (ts : List Tok) (hb : isBlankStart t.1 = false) :
+    semR (t :: ts) = (semP (t :: ts)).map fun p => p.1 :: p.2 := by
+  unfold semR semP
+  rw [rootLoop_start t ts hb, mk_map]
+  simp only [dItems_para]
+
+theorem semP_nil : semP [] = some ([], []) := by simp [semP, paraLoop_nil, rootLoop_nil, mk]
+
+theorem semP_nl (r : List Tok) : semP (NL :: r) = (semR r).map fun ps => ([], ps) := by
+  rw [← semR_nl r]
+  unfold semP semR
+  rw [paraLoop_newline NL r rfl, mk_map]
+  simp
+
+theorem semP_comment_nl (s : Str) (r : List Tok) : semP ((.COMMENT, s) :: NL :: r) = semP r := by
+  unfold semP
+  rw [paraLoop_comment]
+  simp only [pItems_tk]
+
+theorem semP_comment_eof (s : Str) : semP [(.COMMENT, s)] = some ([], []) := by
+  unfold semP
+  rw [paraLoop_step _ _ (by simp), parseEntry_comment_eof]
+  simp [paraLoop_nil, rootLoop_nil, mk, pItems_tk]
+
+theorem semP_err (R : List Tok) (h : (paraLoop R).errs ≠ []) : semP R = none := by
+  unfold semP
+  exact mk_err _ _ (by simp [h])
+
+theorem valTexts_optVal (v : Str) : valTexts ((optTok .VALUE v).map tk) = optV v := by
+  unfold optTok optV
+  split <;> simp [valTexts_value]
+
+theorem valTexts_optWs (w : Str) (ns : List DNode) :
+    valTexts ((optTok .WHITESPACE w).map tk ++ ns) = valTexts ns := by
+  unfold optTok
+  split
+  · simp
+  · simp [valTexts_other]
+
+theorem semP_field (k w1 w2 : Str) (X : List Tok) (hX : HeadNot [.WHITESPACE, .COMMENT] X) :
+    semP ((.KEY, k) :: (optTok .WHITESPACE w1 ++ (.COLON, [':']) :: (optTok .WHITESPACE w2 ++ X)))
+      = (semE X).map fun r => ((k, Text.join ['\n'] r.1) :: r.2.1, r.2.2) := by
+  have hk : keyPart ((.KEY, k) :: (optTok .WHITESPACE w1 ++ (.COLON, [':']) :: (optTok .WHITESPACE w2 ++ X)))
+      = ⟨tk (.KEY, k) :: (optTok .WHITESPACE w1).map tk, [],
+          (.COLON, [':']) :: (optTok .WHITESPACE w2 ++ X)⟩ := by
+    simp only [keyPart, ↓reduceIte]
+    rw [skipWs_optWs _ _ (headNot_cons _ _ _ (by simp))]
+  have hc : colonPart ((.COLON, [':']) :: (optTok .WHITESPACE w2 ++ X))
+      = ⟨tk (.COLON, [':']) :: (optTok .WHITESPACE w2).map tk, [], X⟩ := by
+    simp only [colonPart, ↓reduceIte]
+    rw [skipWs_optWs _ _ hX]
+  unfold semP semE semX
+  rw [paraLoop_step _ _ (by simp), parseEntry_key _ _ rfl]
+  simp only [entryBody, hk, hc, mk_map, List.nil_append, List.cons_append]
+  rw [pItems_entry]
+  simp only [valTexts_other _ _ (show ((Kind.KEY, k) : Tok).1 ≠ .VALUE by simp), valTexts_optWs,
+    valTexts_other _ _ (show ((Kind.COLON, [':']) : Tok).1 ≠ .VALUE by simp), List.append_assoc,
+    List.cons_append]
+
+theorem semE_eof (v : Str) : semE (optTok .VALUE v) = some (optV v, [], []) := by
+  have hb := bumpVals_optVal v [] (headNot_nil _)
+  rw [List.append_nil] at hb
+  unfold semE semX
+  rw [entryLines_of_nil _ _ hb]
+  simp [paraLoop_nil, rootLoop_nil, mk, valTexts_optVal]
+
+theorem semE_nl (v : Str) (R : List Tok) :
+    semE (optTok .VALUE v ++ NL :: R) = (semA R).map fun r => (optV v ++ r.1, r.2.1, r.2.2) := by
+  have hb := bumpVals_optVal v (NL :: R) (headNot_cons _ _ _ (by simp))
+  unfold semE semA semX
+  rw [entryLines_of_cons _ _ _ _ hb, mk_map]
+  simp only [nlNodes_nl, nlErrs_nl, List.nil_append, valTexts_append, valTexts_optVal,
+    valTexts_other _ _ (show NL.1 ≠ .VALUE by simp), List.append_assoc, List.cons_append]
+
+theorem semA_stop (R : List Tok) (h : HeadNot [.INDENT] R) : semA R = (semP R).map fun p => ([], p.1, p.2) := by
+  have : afterNl R = ⟨[], [], R⟩ := by
+    cases R with
+    | nil => rfl
+    | cons i r =>
+      have : i.1 ≠ .INDENT := by simpa using h i (by simp)
+      simp [afterNl, this]
+  unfold semA semX semP
+  rw [this, mk_map]
+  simp
+
+theorem semA_indent (i : Str) (cs X : List Tok) (hcs : ∀ c ∈ cs, c.1 = .COMMENT)
+    (hX : HeadNot [.WHITESPACE, .COMMENT] X) : semA ((.INDENT, i) :: (cs ++ X)) = semE X := by
+  unfold semA semE semX
+  rw [afterNl_indent i cs X hcs hX]
+  simp only [valTexts_afterNl_indent i cs _ hcs]
+
 end Deb822Verif.Props.C03Lenient
